@@ -23,6 +23,8 @@ enum Step17 {
     /// client i ends: the string names how
     End(usize, String),
     Advance(u64),
+    /// the next accept() fails with this errno (ECONNABORTED 103, EMFILE 24, ENFILE 23, ENOBUFS 105)
+    AcceptErr(i32),
 }
 
 fn step_json(s: &Step17) -> Value {
@@ -31,6 +33,7 @@ fn step_json(s: &Step17) -> Value {
         Step17::Probe(i) => json!({"probe": i}),
         Step17::End(i, how) => json!({"end": i, "how": how}),
         Step17::Advance(ms) => json!({"advance": ms}),
+        Step17::AcceptErr(e) => json!({"accept_error": e}),
     }
 }
 
@@ -43,6 +46,9 @@ fn step_from(v: &Value) -> Option<Step17> {
     }
     if let Some(i) = v.get("end") {
         return Some(Step17::End(i.as_u64()? as usize, v.get("how")?.as_str()?.to_string()));
+    }
+    if let Some(e) = v.get("accept_error") {
+        return Some(Step17::AcceptErr(e.as_i64()? as i32));
     }
     Some(Step17::Advance(v.get("advance")?.as_u64()?))
 }
@@ -75,6 +81,7 @@ struct World17 {
     max_waiting: usize,
     waited_then_served: u64,
     ends: std::collections::BTreeMap<String, u64>,
+    accept_errors: u64,
 }
 
 impl World17 {
@@ -261,6 +268,12 @@ impl World17 {
                 self.clients[i].open = !view.srv_dropped;
                 self.invariants(how);
             }
+            Step17::AcceptErr(e) => {
+                self.ring.accept_error(*e);
+                self.accept_errors += 1;
+                self.note(format!("accept error {}", e));
+                self.invariants("accept error");
+            }
             Step17::Advance(ms) => {
                 self.ring.advance_ms(*ms);
                 for i in 0..self.clients.len() {
@@ -387,6 +400,9 @@ fn gen_c17(run_seed: u64, tier: Tier) -> (Knobs, Vec<Step17>) {
             let ms = rng.range(1, 700);
             steps.push(Step17::Advance(ms));
         }
+        if rng.chance(1, 25) {
+            steps.push(Step17::AcceptErr(*rng.pick(&[103i32, 24, 23, 105])));
+        }
     }
     (knobs, steps)
 }
@@ -430,6 +446,7 @@ impl Check for C17 {
             max_waiting: 0,
             waited_then_served: 0,
             ends: Default::default(),
+            accept_errors: 0,
         };
         for s in &steps {
             w.step(s);
@@ -448,6 +465,7 @@ impl Check for C17 {
         out.count("connections", w.clients.len() as u64);
         out.count("runs_with_connection_waiting_for_slot", (w.max_waiting > 0) as u64);
         out.count("waiting_connection_picked_up", w.waited_then_served);
+        out.count("accept_errors_injected", w.accept_errors);
         for (k, v) in &w.ends {
             out.count(&format!("end:{}", k), *v);
         }
